@@ -34,10 +34,30 @@ Theorem C19_other_names_kept :
 Proof. exact tset_other_name. Qed.
 Print Assumptions C19_other_names_kept.
 
+(** direction of scans: for a scan body saving one value, the collected entry is the stack over the
+    positions i = 0..len-1 of the value saved at execution step i (forward scan) resp. len-1-i
+    (lax.scan(..., reverse=True)), i.e. exactly what was passed to save at the iteration that jax
+    places at that position *)
+Theorem C19_scan_stack_positions :
+  forall len rv name site idx path bs acc, 0 < len ->
+    let v := fun k => inst (wrap bs (VSite site)) (idx ++ [k]) in
+    tget (path ++ [name]) (spec1 (PScan len rv [PSave name site]) idx path bs acc)
+    = Some (TLeaf (AStack (map v (scan_order len rv))))
+    /\ forall i, i < len ->
+         nth i (map v (scan_order len rv)) (AStack []) = v (if rv then len - 1 - i else i).
+Proof. exact scan_save_positions. Qed.
+Print Assumptions C19_scan_stack_positions.
+
 Example C19_nonvacuous :
-  spec [PSave 0 1; PNs 5 [PScan 2 [PSave 1 2; PVmap 2 [PSave 0 3]]; PSave 1 4]] [] [] [] (TNode [])
+  spec [PSave 0 1; PNs 5 [PScan 2 false [PSave 1 2; PVmap 2 [PSave 0 3]]; PSave 1 4]] [] [] [] (TNode [])
   = TNode [(0, TLeaf (ASite 1 []));
            (5, TNode [(1, TLeaf (ASite 4 []));
                       (0, TLeaf (AStack [AStack [ASite 3 [0; 0]; ASite 3 [0; 1]];
                                          AStack [ASite 3 [1; 0]; ASite 3 [1; 1]]]))])].
+Proof. reflexivity. Qed.
+
+(** a reverse scan stacks the value of execution step len-1-i at position i *)
+Example C19_reverse_scan :
+  spec [PScan 3 true [PSave 0 1]] [] [] [] (TNode [])
+  = TNode [(0, TLeaf (AStack [ASite 1 [2]; ASite 1 [1]; ASite 1 [0]]))].
 Proof. reflexivity. Qed.
